@@ -1,9 +1,76 @@
-(* C05 — placeholder until the registry theorems land (replaced below). *)
+(* C05 — Object lifetime on the heap graph of the model (strong children, roots = the user's slots).
+   Only property theorems: each is closed by `exact` and followed by Print Assumptions. *)
 From Coq Require Import List NArith ZArith.
 From DSD Require Import Base.Str Base.Errors Model.ComplexUtils Model.RegStr Model.Heap Model.Registry
-  Proofs.RegistryBasic.
+  Proofs.RegHeap Proofs.RegInv Proofs.RegCalls Proofs.RegExt Proofs.RegC04 Proofs.RegStep Proofs.RegC01 Proofs.RegC05.
 Import ListNotations.
 
-Theorem C05_init_empty : forall ct n, heap (init ct n) = [] /\ length (classes (init ct n)) = length ct.
-Proof. exact init_shape. Qed.
-Print Assumptions C05_init_empty.
+(* in every state between two operations of every history: live <-> reachable from a slot *)
+Theorem C05_live_iff_reachable : forall ct n ops i,
+  let st := run ct (init ct n) ops in is_live (heap st) i = true <-> Reachable st i.
+Proof. exact live_iff_reachable_everywhere. Qed.
+Print Assumptions C05_live_iff_reachable.
+
+(* live <-> registered under its name and its canonical form *)
+Theorem C05_registered_iff_live : forall ct st i o,
+  Inv ct st -> hget (heap st) i = Some o -> o_cls o < length ct ->
+  (o_live o = true <->
+   nlookup (o_name o) (cs_names (cget st (o_cls o))) = Some i /\
+   klookup (o_key o) (cs_canon (cget st (o_cls o))) = Some i).
+Proof. exact registered_iff_live. Qed.
+Print Assumptions C05_registered_iff_live.
+
+(* no_loss *)
+Theorem C05_no_loss : forall ct st i, Inv ct st -> Reachable st i -> is_live (heap st) i = true.
+Proof. exact no_loss. Qed.
+Print Assumptions C05_no_loss.
+
+(* what a collection keeps *)
+Theorem C05_collect_spec : forall st i,
+  HeapOK st -> (is_live (heap (collect st)) i = true <-> is_live (heap st) i = true /\ Reachable st i).
+Proof. exact collect_spec. Qed.
+Print Assumptions C05_collect_spec.
+
+(* release: after a drop exactly what the remaining slots reach survives; the rest has no entry left *)
+Theorem C05_release : forall ct st slot i,
+  Inv ct st ->
+  let st' := fst (step ct st (ODrop slot)) in
+  (is_live (heap st') i = true <->
+   is_live (heap st) i = true /\ Reach (heap st) (root_ids (roots (set_root st slot None))) i) /\
+  (is_live (heap st') i = false ->
+   forall c, (forall n, nlookup n (cs_names (cget st' c)) <> Some i) /\
+             (forall k, klookup k (cs_canon (cget st' c)) <> Some i)).
+Proof. exact release. Qed.
+Print Assumptions C05_release.
+
+(* ... and a free name / canonical form is defined anew by the next request (non-failing class) *)
+Theorem C05_redefine_after_release : forall ct st c ci auto nm k extra children d,
+  nth_error ct c = Some ci -> c_fail ci = FNone -> sing_lookup (cget st c) nm (Some k) = LFresh ->
+  exists st1, create ct st c auto nm k extra children d =
+              (register (fst (alloc st1 (mkObj c nm k (k :: extra) true children d))) c nm k extra (length (heap st)),
+               CRet (length (heap st)) true).
+Proof. exact redefine_after_release. Qed.
+Print Assumptions C05_redefine_after_release.
+
+(* refused requests (any kind of error) retain nothing *)
+Theorem C05_refused_no_retention : forall ct st o st' k e,
+  Inv ct st -> Collected st -> step ct st o = (st', Raised k e) ->
+  roots st' = roots st /\
+  (forall i ob, live_obj (heap st') i ob <-> live_obj (heap st) i ob) /\
+  (forall i, Reachable st' i <-> Reachable st i) /\
+  (forall c, cs_names (cget st' c) = cs_names (cget st c) /\ cs_canon (cget st' c) = cs_canon (cget st c)).
+Proof. exact refused_no_retention. Qed.
+Print Assumptions C05_refused_no_retention.
+
+(* queries and the turns setter add no edge *)
+Theorem C05_query_no_change : forall ct st slot q, fst (step ct st (OQuery slot q)) = st.
+Proof. exact query_no_change. Qed.
+Print Assumptions C05_query_no_change.
+
+Theorem C05_set_turns_no_edge : forall ct st slot v,
+  let st' := fst (step ct st (OSetTurns slot v)) in
+  roots st' = roots st /\ classes st' = classes st /\
+  (forall i, option_map (fun o => (o_live o, o_children o, o_name o, o_key o)) (hget (heap st') i) =
+             option_map (fun o => (o_live o, o_children o, o_name o, o_key o)) (hget (heap st) i)).
+Proof. exact set_turns_no_edge. Qed.
+Print Assumptions C05_set_turns_no_edge.
